@@ -8,6 +8,10 @@ import CCVerif.Properties.C17
 import CCVerif.Lemmas.RenameGenFrag
 import CCVerif.Lemmas.CheckerRenamePlain
 import CCVerif.Lemmas.CheckerRenameNames
+import CCVerif.Lemmas.RenameChecker
+import CCVerif.Lemmas.ConceptSpec
+import CCVerif.Lemmas.ExtractAfter
+import CCVerif.Lemmas.ContentDeps
 /-!
 # C08 — renaming rewrites all and only the mentions of a name and preserves meaning
 
@@ -51,7 +55,15 @@ Schema level, the REAL type checker (`Model/Checker.lean`) as the analysis, defi
 constructed: `rename_iso_checker_plain` (transposition, constituents that are not called functions, no
 assumption on spellings), `rename_iso_checker_names` (every constituent with a well-formed name,
 called functions included: block-wise transposition of the mangled radicals),
-`rename_capture_checker_counterexample`.
+`rename_capture_checker_counterexample`; on GRAMMAR-SHAPED definitions with constant traits nothing is left to
+the caller: `rename_iso_checker_shaped`, `substitute_iso_checker_shaped` (renaming constructed, side conditions
+discharged by `Lemmas/CheckerWfCarrier.lean`; also in the from-scratch form).
+
+Word level, extraction side and constituent level: `extractUGlobals_words` (`globalsOf` = the tokens of
+`ExtractUGlobals`), `unmentioned_text_unchanged`, `mentions_after_translate`, `old_name_not_mentioned`,
+`renameAll_spec`, `setAlias_renameAll_spec` (model = `renameAll` = the pointwise reading `Renamed` for every
+constituent), `unresolved_spec`, `freshFor_spec`, `content_dependencies_preserved`, `content_dependencies_preserved_map`,
+`content_capture_counterexample`.
 -/
 namespace CCVerif.C08
 open CCVerif.Syntax CCVerif.Generated CCVerif.Lexer CCVerif.Strings CCVerif.Translate CCVerif.Translate.Spec
@@ -1046,5 +1058,395 @@ theorem rename_capture_checker_counterexample :
   simp [renCInfo] at this
 
 end CheckerLevel
+
+/-! ## schema level, the real type checker on GRAMMAR-SHAPED definitions: nothing left to the caller -/
+
+section CheckerShaped
+open CCVerif.SchemaGen CCVerif.Checker CCVerif.Types
+
+/-- **rename_iso_checker_shaped.** The isomorphism clause of C08 for the type-checker model (`checkerR`, constant
+traits as in C13 `extract_status_type_preserved_checker`) on the carrier of grammar-shaped definitions
+(`defShaped`: empty, or a phrase of the grammar `Wf.wf .ND` — what C06 `parse_gives_WfParsed` gives below the
+declaration — whose radical tokens, called names and declared variables carry the kind of text the lexer gives
+them). Hypotheses: the C07 invariant, pairwise distinct aliases, the new name free and — the proviso of the
+property — not mentioned as an unresolved name; every name of the schema and the new name are good names
+(`GoodName`: what the identity manager issues); the trait keys are single blocks that are neither names of the
+schema nor the new name. NO renaming and NO side condition per constituent is left as a hypothesis: there is a
+bijection of names `n` that maps the old alias to the new one and fixes every other name of the schema such
+that after `SetAliasFor(u, new, substitute = true)` the dependency edges are the old ones and every entry is
+the old entry renamed by `n` (same status; typification and declared argument types with `n` applied to every
+block of every base name) — for the state of the machine and, equivalently (C07), for the analysis FROM SCRATCH
+of the renamed schema against the analysis from scratch of the old one. -/
+theorem rename_iso_checker_shaped (traits : TraitEnv) {st : St CDef CInfo}
+    (h : WF (checkerR fun _ => traits) st) (hd : AliasesDistinct st) {u : Nat} {c : Cst CDef}
+    (hat : st.at u = some c) (new : String)
+    (hfree : ∀ x ∈ st.store, x.alias ≠ new)
+    (hproviso : ∀ x ∈ st.store, new ∈ mentionsOf x.defn → (findAliasL st.store new).isSome = true)
+    (hshape : ∀ x ∈ st.store, defShaped x.defn = true)
+    (hgood : ∀ n ∈ namesOfG (checkerR fun _ => traits) st.store, GoodName n) (hnew : GoodName new)
+    (htr : ∀ p ∈ traits, Blocks.isBlock p.1.toList = true ∧
+      p.1 ∉ namesOfG (checkerR fun _ => traits) st.store ∧ p.1 ≠ new) :
+    ∃ n : NameBij, n.b.f c.alias = new ∧
+      (∀ x ∈ namesOfG (checkerR fun _ => traits) st.store, x ≠ c.alias → n.b.f x = x) ∧
+      (step (checkerR fun _ => traits) st (.setAlias u new true)).depEdges (checkerR fun _ => traits) =
+        st.depEdges (checkerR fun _ => traits) ∧
+      (step (checkerR fun _ => traits) st (.setAlias u new true)).report (checkerR fun _ => traits) =
+        (st.report (checkerR fun _ => traits)).map (fun p => (p.1, renCInfo (CRen.ofNameBij n) p.2)) ∧
+      ((step (checkerR fun _ => traits) st (.setAlias u new true)).scratch (checkerR fun _ => traits)).depEdges
+          (checkerR fun _ => traits) = (st.scratch (checkerR fun _ => traits)).depEdges (checkerR fun _ => traits) ∧
+      ((step (checkerR fun _ => traits) st (.setAlias u new true)).scratch (checkerR fun _ => traits)).report
+          (checkerR fun _ => traits) =
+        ((st.scratch (checkerR fun _ => traits)).report (checkerR fun _ => traits)).map
+          (fun p => (p.1, renCInfo (CRen.ofNameBij n) p.2)) := by
+  obtain ⟨n, h1, h2, h3⟩ :=
+    setAlias_iso_checker_shaped traits h hd hat new hfree hproviso hshape hgood hnew htr
+  obtain ⟨s1, s2⟩ := scratch_form (checkerR_lawful _) h (h.setAlias (checkerR_lawful _) u new true)
+    (renCInfo (CRen.ofNameBij n)) h3
+  exact ⟨n, h1, h2, h3.1, h3.2, s1, s2⟩
+
+/-- **substitute_iso_checker_shaped.** The same for `SubstitueAliases(map)` (`ResetAliases`, the simultaneous maps
+of merge and equation — swaps and chains included): the map is injective on the names of the schema (the
+proviso) and maps them — good names — to good names, the trait keys stay apart. The bijection `n` acts like the
+map on every name of the schema. -/
+theorem substitute_iso_checker_shaped (traits : TraitEnv) {st : St CDef CInfo}
+    (h : WF (checkerR fun _ => traits) st) (m : List (String × String))
+    (hshape : ∀ x ∈ st.store, defShaped x.defn = true)
+    (hgood : ∀ n ∈ namesOfG (checkerR fun _ => traits) st.store,
+      GoodName n ∧ GoodName ((Schema.lookup m n).getD n))
+    (htr : ∀ p ∈ traits, Blocks.isBlock p.1.toList = true ∧
+      p.1 ∉ namesOfG (checkerR fun _ => traits) st.store ∧
+      p.1 ∉ (namesOfG (checkerR fun _ => traits) st.store).map (fun n => (Schema.lookup m n).getD n))
+    (hinj : ∀ a ∈ namesOfG (checkerR fun _ => traits) st.store,
+      ∀ b ∈ namesOfG (checkerR fun _ => traits) st.store,
+        (Schema.lookup m a).getD a = (Schema.lookup m b).getD b → a = b) :
+    ∃ n : NameBij, (∀ x ∈ namesOfG (checkerR fun _ => traits) st.store, n.b.f x = (Schema.lookup m x).getD x) ∧
+      (step (checkerR fun _ => traits) st (.substitute m)).depEdges (checkerR fun _ => traits) =
+        st.depEdges (checkerR fun _ => traits) ∧
+      (step (checkerR fun _ => traits) st (.substitute m)).report (checkerR fun _ => traits) =
+        (st.report (checkerR fun _ => traits)).map (fun p => (p.1, renCInfo (CRen.ofNameBij n) p.2)) ∧
+      ((step (checkerR fun _ => traits) st (.substitute m)).scratch (checkerR fun _ => traits)).depEdges
+          (checkerR fun _ => traits) = (st.scratch (checkerR fun _ => traits)).depEdges (checkerR fun _ => traits) ∧
+      ((step (checkerR fun _ => traits) st (.substitute m)).scratch (checkerR fun _ => traits)).report
+          (checkerR fun _ => traits) =
+        ((st.scratch (checkerR fun _ => traits)).report (checkerR fun _ => traits)).map
+          (fun p => (p.1, renCInfo (CRen.ofNameBij n) p.2)) := by
+  obtain ⟨n, h1, h3⟩ := SchemaGen.substitute_iso_checker_shaped traits h m hshape hgood htr hinj
+  obtain ⟨s1, s2⟩ := scratch_form (checkerR_lawful _) h (h.substitute (checkerR_lawful _) m)
+    (renCInfo (CRen.ofNameBij n)) h3
+  exact ⟨n, h1, h3.1, h3.2, s1, s2⟩
+
+/-- `X1` base set; `S1:==ℬ(X1×X1)`; `D1:==Pr1(S1)` (rejected in this instance: `S1` is a term here, typed
+ℬℬ(X1×X1), not a structure); `D2:==Pr1(red(S1))`; `D3:==X1\X9` (`X9` denotes nothing) -/
+def histShaped : List (Op CDef) :=
+  let bool1 (a : Ast) : Ast := .node .BOOLEAN .none 0 0 [a]
+  let decart (a b : Ast) : Ast := .node .DECART .none 0 0 [a, b]
+  let bigPr1 (a : Ast) : Ast := .node .BIGPR (.tuple [1]) 0 0 [a]
+  let red (a : Ast) : Ast := .node .REDUCE .none 0 0 [a]
+  [.insert ⟨1, "X1", .base, none⟩,
+   .insert ⟨2, "S1", .term, some (bool1 (decart (glob "X1") (glob "X1")))⟩,
+   .insert ⟨3, "D1", .term, some (bigPr1 (glob "S1"))⟩,
+   .insert ⟨4, "D2", .term, some (bigPr1 (red (glob "S1")))⟩,
+   .insert ⟨5, "D3", .term, some (setMinus (glob "X1") (glob "X9"))⟩]
+
+/-- the hypotheses of `rename_iso_checker_shaped` hold for renaming `X1` to `X5` in `histShaped` -/
+example :
+    let A := checkerR fun _ => []
+    let st := run A histShaped
+    WF A st ∧ AliasesDistinct st ∧ st.at 1 = some ⟨1, "X1", .base, none⟩ ∧
+    (∀ x ∈ st.store, x.alias ≠ "X5") ∧
+    (∀ x ∈ st.store, "X5" ∈ mentionsOf x.defn → (findAliasL st.store "X5").isSome = true) ∧
+    (∀ x ∈ st.store, defShaped x.defn = true) ∧
+    (∀ n ∈ namesOfG A st.store, GoodName n) ∧ GoodName "X5" :=
+  ⟨WF.run (checkerR_lawful _) (by decide +kernel), by decide +kernel, by decide +kernel, by decide +kernel,
+    by decide +kernel, by decide +kernel, by decide +kernel, by decide +kernel⟩
+
+/-- … and the conclusion, computed: `X1`, `S1`, `D2` are typed ℬ(X5), ℬℬ(X5×X5), ℬ(X5) after the renaming,
+`D1` / `D3` stay incorrect, the edges are the old ones -/
+example :
+    let A := checkerR fun _ => []
+    let st := run A histShaped
+    (st.report A).map (fun p => (p.1, p.2.status, p.2.ty)) =
+      [(1, .verified, some (.ty (.coll (.base "X1")))),
+       (2, .verified, some (.ty (.coll (.coll (.tuple [.base "X1", .base "X1"]))))),
+       (3, .incorrect, none), (4, .verified, some (.ty (.coll (.base "X1")))), (5, .incorrect, none)] ∧
+    ((step A st (.setAlias 1 "X5" true)).report A).map (fun p => (p.1, p.2.status, p.2.ty)) =
+      [(1, .verified, some (.ty (.coll (.base "X5")))),
+       (2, .verified, some (.ty (.coll (.coll (.tuple [.base "X5", .base "X5"]))))),
+       (3, .incorrect, none), (4, .verified, some (.ty (.coll (.base "X5")))), (5, .incorrect, none)] ∧
+    (step A st (.setAlias 1 "X5" true)).depEdges A = st.depEdges A ∧
+    st.depEdges A = [(1, 2), (2, 3), (2, 4), (1, 5)] := by
+  decide +kernel
+
+/-- the hypotheses of `substitute_iso_checker_shaped` for the simultaneous map `X1 ↦ X5`, `S1 ↦ D2`, `D2 ↦ S1`
+(a fresh name and a swap) on `histShaped` -/
+example :
+    let A := checkerR fun _ => []
+    let st := run A histShaped
+    let m := [("X1", "X5"), ("S1", "D2"), ("D2", "S1")]
+    (∀ n ∈ namesOfG A st.store, GoodName n ∧ GoodName ((Schema.lookup m n).getD n)) ∧
+    (∀ a ∈ namesOfG A st.store, ∀ b ∈ namesOfG A st.store,
+      (Schema.lookup m a).getD a = (Schema.lookup m b).getD b → a = b) := by
+  refine ⟨by decide +kernel, by decide +kernel⟩
+
+end CheckerShaped
+
+/-! ## the word-level specification, name-extraction side and constituent level -/
+
+section WordLevelContent
+
+/-- **extractUGlobals_words.** The model of `ExtractUGlobals` (MATH lexer, `FilterGlobals`) returns exactly the
+whole upper-case identifier words of the word-level specification (`globalsOf`: `scan`, no lexer model, no rule
+table), in text order and with repetitions, for every well-formed text. Same table-dependent facts as
+`words_agree_tokens`. -/
+theorem extractUGlobals_words (cps : List Nat) (hv : ∀ c ∈ cps, scalar c) :
+    extractUGlobals (encode cps) = some (globalsOf cps) := by
+  rw [extractUGlobals_bytes, decode_encode cps hv]
+  rfl
+
+/-- … at token level: the global words are the texts of the tokens `FilterGlobals` accepts -/
+theorem globals_agree_tokens (cps : List Nat) (toks : List RawTok) (hl : lexMath cps = some toks) :
+    globalsOf cps = (toks.filter fun t => filterGlobals t.id).map fun t => encode t.text :=
+  globals_eq_tokens cps toks hl
+
+/-- … on byte strings: both sides are undefined exactly on ill-formed UTF-8 (what the driver prints as
+`skip` / `n/a` for `c08 ext`) -/
+theorem extractUGlobals_words_bytes (s : Bytes) : extractUGlobals s = (decode s).map globalsOf :=
+  extractUGlobals_bytes s
+
+/-- the extraction on the text of `words_on_example` (`xX1 X1X1 1X1 Pr1,2 BX1`): `xX1` is a local name, `X1X1`
+ONE global word, `1X1` and `BX1` contain the global word `X1`, `Pr1,2` is a keyword -/
+theorem globals_on_example :
+    globalsOf [120, 88, 49, 32, 88, 49, 88, 49, 32, 49, 88, 49, 32, 80, 114, 49, 44, 50, 32, 66, 88, 49] =
+      [[88, 49, 88, 49], [88, 49], [88, 49]] ∧
+    extractUGlobals (encode [120, 88, 49, 32, 88, 49, 88, 49, 32, 49, 88, 49, 32, 80, 114, 49, 44, 50, 32, 66, 88, 49]) =
+      some [[88, 49, 88, 49], [88, 49], [88, 49]] := by
+  decide +kernel
+
+/-- **unmentioned_text_unchanged.** "… and changes nothing else", for a whole text: when no whole upper-case
+identifier word of a well-formed text (`globalsOf`, word level) is sent to a different name by the translator,
+`TranslateRS` with `FilterGlobals` returns the text byte for byte and the count 0 — e.g. `X11∪X111` under
+`X1 ↦ X2`. -/
+theorem unmentioned_text_unchanged (tr : Translator) (cps : List Nat) (hv : ∀ c ∈ cps, scalar c)
+    (h : ∀ b ∈ globalsOf cps, tr b = none ∨ tr b = some b) :
+    translateRS filterGlobals tr (encode cps) = .ok (encode cps) 0 := by
+  have := translateRS_words false tr cps hv
+  simp only [Bool.false_eq_true, if_false] at this
+  rw [this, translateWords_untouched tr cps h]
+
+/-- non-vacuity: `X11∪X111` does not mention `X1` as a whole word -/
+example : ∀ b ∈ globalsOf [88, 49, 49, U, 88, 49, 49, 49],
+    createTranslator [(x1, x2)] b = none ∨ createTranslator [(x1, x2)] b = some b := by decide +kernel
+
+/-- **mentions_after_translate.** The names a text mentions AFTER the translation are the names it mentioned before
+with the map applied, in the same order: for every well-formed text and every translator whose new names — as
+far as they replace a global word of the text — lex on their own as one global-name token (what the identity
+manager issues), `ExtractUGlobals` of the result of `TranslateRS(FilterGlobals)` is the word-level extraction of
+the original text mapped. The text-level counterpart of the law `mentions_ren` of the schema level; from
+`relex_stable` and `extractUGlobals_words`. -/
+theorem mentions_after_translate (tr : Translator) (cps : List Nat) (hv : ∀ c ∈ cps, scalar c)
+    (hg : ∀ b ∈ globalsOf cps, ∀ n, tr b = some n → n ≠ b → ∃ k, idClass n = some k ∧ filterGlobals k = true) :
+    ∃ s k, translateRS filterGlobals tr (encode cps) = .ok s k ∧
+      extractUGlobals s = some ((globalsOf cps).map fun b => (tr b).getD b) := by
+  have h1 := translateRS_words false tr cps hv
+  simp only [Bool.false_eq_true, if_false] at h1
+  obtain ⟨cps', hd, he⟩ := globals_after_translate tr cps hv hg
+  refine ⟨_, _, h1, ?_⟩
+  rw [extractUGlobals_bytes, hd, Option.map_some, he]
+
+/-- **old_name_not_mentioned.** "replaces EACH whole-identifier occurrence": after `old ↦ new` (`new ≠ old` a
+global identifier spelling) no global-name token of the result is spelled `old`, and for every third name
+nothing changes: it is mentioned afterwards iff it was mentioned before. -/
+theorem old_name_not_mentioned (old new : Bytes) (hne : new ≠ old)
+    (hcls : ∃ k, idClass new = some k ∧ filterGlobals k = true) (cps : List Nat) (hv : ∀ c ∈ cps, scalar c) :
+    ∃ s k names, translateRS filterGlobals (createTranslator [(old, new)]) (encode cps) = .ok s k ∧
+      extractUGlobals s = some names ∧ old ∉ names ∧
+      ∀ n, n ≠ old → n ≠ new → (n ∈ names ↔ n ∈ globalsOf cps) := by
+  have htr : ∀ b, createTranslator [(old, new)] b = if old = b then some new else none := by
+    intro b
+    unfold createTranslator
+    by_cases e : old = b <;> simp [e]
+  obtain ⟨s, k, h1, h2⟩ := mentions_after_translate (createTranslator [(old, new)]) cps hv (by
+    intro b _ n hn _
+    rw [htr] at hn
+    split at hn
+    · cases hn; exact hcls
+    · cases hn)
+  refine ⟨s, k, _, h1, h2, ?_, ?_⟩
+  · intro hm
+    obtain ⟨b, _, e⟩ := List.mem_map.1 hm
+    rw [htr] at e
+    split at e
+    · exact hne e
+    · next hb => exact hb e.symm
+  · intro n h1' h2'
+    constructor
+    · intro hm
+      obtain ⟨b, hb, e⟩ := List.mem_map.1 hm
+      rw [htr] at e
+      split at e
+      · exact absurd e.symm h2'
+      · simp only [Option.getD_none] at e; exact e ▸ hb
+    · intro hm
+      refine List.mem_map.2 ⟨n, hm, ?_⟩
+      rw [htr, if_neg (fun e => h1' e.symm)]
+      rfl
+
+/-- non-vacuity of `mentions_after_translate` / `old_name_not_mentioned`: `X2` is a global identifier spelling;
+on `ℬ(X1×X2)∪X1` the swap `X1 ↔ X2` turns the mentions `X1 X2 X1` into `X2 X1 X2` -/
+example : (∃ k, idClass x2 = some k ∧ filterGlobals k = true) ∧ (∀ c ∈ txtSwap, scalar c) ∧
+    globalsOf txtSwap = [x1, x2, x1] ∧
+    ((translateRS filterGlobals (createTranslator [(x1, x2), (x2, x1)]) (encode txtSwap)).text?.bind extractUGlobals) =
+      some [x2, x1, x2] := by
+  refine ⟨⟨.ID_GLOBAL, by decide +kernel, by decide⟩, by decide, by decide +kernel, by decide +kernel⟩
+
+/-- **renameAll_spec.** `Schema::SubstitueAliases(map)` + `Thesaurus::SubstitueAliases(map)` on the content
+(`ResetAliases`, merge, equation; model `substituteAliases`: byte offsets of `TranslateRS`, the right-to-left loop
+of `TranslateRaw`), for constituents whose four texts are well-formed UTF-8 (`Concept.WF`): the operation never
+faults, its result is the specification `renameAll`, and that is, for EVERY constituent at its position,
+`Renamed`: same identifier; alias through the map; definition and convention with exactly the whole upper-case
+identifier words that the map sends elsewhere replaced (`translateWords false`, the word-level specification);
+term and definition text with only the name bytes of the mapped entity references replaced
+(`translateRefsStrict`); the list keeps its length — nothing else changes. -/
+theorem renameAll_spec (m : Substitutes) (cs : List Concept) (h : ∀ c ∈ cs, c.WF) :
+    ∃ cs', substituteAliases cs m = some cs' ∧ renameAll m cs = some cs' ∧ cs'.length = cs.length ∧
+      ∀ (i : Nat) (c c' : Concept), cs[i]? = some c → cs'[i]? = some c' → Renamed (createTranslator m) c c' := by
+  obtain ⟨cs', a, b, r⟩ := substituteAliases_renamed m cs h
+  exact ⟨cs', a, b, r.length, r.get⟩
+
+/-- **setAlias_renameAll_spec.** `SetAliasFor(u, new, substitute = true)` on the content, after the identity
+manager accepted the name (`new` differs from the old alias; identifiers and aliases pairwise distinct, C09):
+the same with the one-entry map `old ↦ new`. -/
+theorem setAlias_renameAll_spec (cs : List Concept) (u : Nat) (c : Concept) (new : Bytes)
+    (hf : cs.find? (·.uid = u) = some c) (hne : c.alias ≠ new)
+    (hu : (cs.map (·.uid)).Nodup) (ha : (cs.map (·.alias)).Nodup) (h : ∀ x ∈ cs, x.WF) :
+    ∃ cs', setAlias cs u new true = some cs' ∧ renameAll [(c.alias, new)] cs = some cs' ∧
+      cs'.length = cs.length ∧
+      ∀ (i : Nat) (x x' : Concept), cs[i]? = some x → cs'[i]? = some x' →
+        Renamed (createTranslator [(c.alias, new)]) x x' := by
+  obtain ⟨cs', a, b, r⟩ := setAlias_renamed cs u c new hf hne hu ha h
+  exact ⟨cs', a, b, r.length, r.get⟩
+
+/-- **unresolved_spec.** The names the specification calls unresolved are exactly the names that the model of
+`ExtractUGlobals` (token level) finds in some definition and that are not the alias of a constituent. -/
+theorem unresolved_spec (cs : List Concept) (n : Bytes) :
+    n ∈ unresolved cs ↔
+      (∃ c ∈ cs, ∃ names, extractUGlobals c.definition = some names ∧ n ∈ names) ∧ ∀ c ∈ cs, c.alias ≠ n :=
+  mem_unresolved cs n
+
+/-- **freshFor_spec.** The proviso as the oracle `iso` evaluates it (`freshFor`) is the proviso of the property:
+every new name of the map (of an entry that changes something) that is found by `ExtractUGlobals` in some
+definition is the alias of a constituent — it is not mentioned as an unresolved name. The shape of the
+hypothesis `hproviso` of `rename_iso*`. -/
+theorem freshFor_spec (m : Substitutes) (cs : List Concept) :
+    freshFor m cs = true ↔
+      ∀ p ∈ m, p.1 ≠ p.2 →
+        (∃ c ∈ cs, ∃ names, extractUGlobals c.definition = some names ∧ p.2 ∈ names) → ∃ c ∈ cs, c.alias = p.2 :=
+  freshFor_iff m cs
+
+/-- `X1` (term `@{X1|nomn,sing}`), `X11`, `D1 := X1∪X11∪X9` with the convention `X1 xX1` and a definition text that
+refers to `X1` and `X11` -/
+def contentEx : List Concept :=
+  [⟨1, [88, 49], [], [], refNomnSing.map id, []⟩,
+   ⟨2, [88, 49, 49], [], [], [], []⟩,
+   ⟨3, [68, 49], encode [88, 49, U, 88, 49, 49, U, 88, 57], [88, 49, 32, 120, 88, 49], [],
+      [64, 123, 88, 49, 124, 110, 111, 109, 110, 125, 32, 64, 123, 88, 49, 49, 124, 110, 111, 109, 110, 125]⟩]
+
+/-- non-vacuity of `renameAll_spec` / `setAlias_renameAll_spec` / `unresolved_spec` / `freshFor_spec`: the
+hypotheses hold on `contentEx`; renaming `X1` to `X2` rewrites the alias, the definition `X1∪X11∪X9` to
+`X2∪X11∪X9`, the convention `X1 xX1` to `X2 xX1`, the references to `X1` (tags kept) and nothing else; `X9` is the
+one unresolved name, so `X2` is fresh and `X9` is not -/
+theorem content_example :
+    (∀ c ∈ contentEx, c.WF) ∧ contentEx.find? (·.uid = 1) = some ⟨1, [88, 49], [], [], refNomnSing, []⟩ ∧
+    (contentEx.map (·.uid)).Nodup ∧ (contentEx.map (·.alias)).Nodup ∧
+    setAlias contentEx 1 x2 true = some
+      [⟨1, x2, [], [], [64, 123, 88, 50, 124, 110, 111, 109, 110, 44, 115, 105, 110, 103, 125], []⟩,
+       ⟨2, [88, 49, 49], [], [], [], []⟩,
+       ⟨3, [68, 49], encode [88, 50, U, 88, 49, 49, U, 88, 57], [88, 50, 32, 120, 88, 49], [],
+          [64, 123, 88, 50, 124, 110, 111, 109, 110, 125, 32, 64, 123, 88, 49, 49, 124, 110, 111, 109, 110, 125]⟩] ∧
+    renameAll [(x1, x2)] contentEx = setAlias contentEx 1 x2 true ∧
+    unresolved contentEx = [[88, 57]] ∧
+    freshFor [(x1, x2)] contentEx = true ∧ freshFor [(x1, [88, 57])] contentEx = false := by
+  decide +kernel
+
+/-- **content_dependencies_preserved.** "Same dependency structure", read off the REAL TEXTS (no checker model):
+`SetAliasFor(u, new, substitute = true)` on a content whose texts are well formed, identifiers and aliases
+pairwise distinct, `new` a global identifier spelling that is not an alias and — the proviso, as the oracle
+evaluates it — `freshFor`: afterwards, for every pair of constituents, the definition of the first mentions the
+alias of the second (a global-name token of `ExtractUGlobals`) iff it did before. -/
+theorem content_dependencies_preserved (cs : List Concept) (u : Nat) (c : Concept) (new : Bytes)
+    (hf : cs.find? (·.uid = u) = some c) (hne : c.alias ≠ new)
+    (hu : (cs.map (·.uid)).Nodup) (ha : (cs.map (·.alias)).Nodup) (hwf : ∀ x ∈ cs, x.WF)
+    (hcls : ∃ k, idClass new = some k ∧ filterGlobals k = true)
+    (hfree : ∀ x ∈ cs, x.alias ≠ new) (hfresh : freshFor [(c.alias, new)] cs = true) :
+    ∃ cs', setAlias cs u new true = some cs' ∧ cs'.length = cs.length ∧
+      ∀ (i j : Nat) (x x' y y' : Concept), cs[i]? = some x → cs'[i]? = some x' → cs[j]? = some y →
+        cs'[j]? = some y' →
+        ((∃ names, extractUGlobals x'.definition = some names ∧ y'.alias ∈ names) ↔
+         (∃ names, extractUGlobals x.definition = some names ∧ y.alias ∈ names)) :=
+  setAlias_dependencies cs u c new hf hne hu ha hwf hcls hfree hfresh
+
+/-- **content_dependencies_preserved_map.** The same for `SubstitueAliases(map)` (`ResetAliases`, the maps of merge
+and equation, swaps and chains included): the map is injective on the names of the content — aliases and names
+found by `ExtractUGlobals` in the definitions; this is the proviso — and every new name is a global identifier
+spelling. -/
+theorem content_dependencies_preserved_map (m : Substitutes) (cs : List Concept) (hwf : ∀ x ∈ cs, x.WF)
+    (hcls : ∀ p ∈ m, p.2 ≠ p.1 → ∃ k, idClass p.2 = some k ∧ filterGlobals k = true)
+    (hinj : ∀ a b, NameOf cs a → NameOf cs b →
+      (createTranslator m a).getD a = (createTranslator m b).getD b → a = b) :
+    ∃ cs', substituteAliases cs m = some cs' ∧ cs'.length = cs.length ∧
+      ∀ (i j : Nat) (x x' y y' : Concept), cs[i]? = some x → cs'[i]? = some x' → cs[j]? = some y →
+        cs'[j]? = some y' →
+        ((∃ names, extractUGlobals x'.definition = some names ∧ y'.alias ∈ names) ↔
+         (∃ names, extractUGlobals x.definition = some names ∧ y.alias ∈ names)) :=
+  substitute_dependencies m cs hwf hcls hinj
+
+/-- non-vacuity of `content_dependencies_preserved_map`: the swap `X1 ↔ X11` on `contentEx` (names `X1`, `X11`,
+`D1`, `X9`): injective on the names, new names global spellings; computed: `D1 := X11∪X1∪X9` afterwards -/
+example :
+    let m : Substitutes := [(x1, [88, 49, 49]), ([88, 49, 49], x1)]
+    (∀ p ∈ m, p.2 ≠ p.1 → ∃ k, idClass p.2 = some k ∧ filterGlobals k = true) ∧
+    (∀ a ∈ [x1, [88, 49, 49], [68, 49], [88, 57]], ∀ b ∈ [x1, [88, 49, 49], [68, 49], [88, 57]],
+      (createTranslator m a).getD a = (createTranslator m b).getD b → a = b) ∧
+    (∀ n, NameOf contentEx n → n ∈ [x1, [88, 49, 49], [68, 49], [88, 57]]) ∧
+    (substituteAliases contentEx m).map (·.map fun x => (x.alias, extractUGlobals x.definition)) =
+      some [([88, 49, 49], some []), (x1, some []), ([68, 49], some [[88, 49, 49], x1, [88, 57]])] := by
+  refine ⟨?_, by decide, ?_, by decide +kernel⟩
+  · intro p hp _
+    have : ∀ p ∈ [(x1, [88, 49, 49]), ([88, 49, 49], x1)], idClass p.2 = some .ID_GLOBAL := by decide +kernel
+    exact ⟨.ID_GLOBAL, this p hp, by decide⟩
+  · intro n hn
+    have hal : ∀ x ∈ contentEx, x.alias ∈ [x1, [88, 49, 49], [68, 49], [88, 57]] := by decide
+    have hmen : ∀ x ∈ contentEx, ∀ names, extractUGlobals x.definition = some names →
+        ∀ n ∈ names, n ∈ [x1, [88, 49, 49], [68, 49], [88, 57]] := by
+      have h3 : ∀ x ∈ contentEx, ∃ names, extractUGlobals x.definition = some names ∧
+          ∀ n ∈ names, n ∈ [x1, [88, 49, 49], [68, 49], [88, 57]] := by decide +kernel
+      intro x hx names he n hn
+      obtain ⟨names', he', h'⟩ := h3 x hx
+      rw [he] at he'
+      cases he'
+      exact h' n hn
+    rcases hn with ⟨x, hx, rfl⟩ | ⟨x, hx, names, he, hm⟩
+    · exact hal x hx
+    · exact hmen x hx names he n hm
+
+/-- non-vacuity: the remaining hypotheses on `contentEx` for `X1 ↦ X2` (the others: `content_example`) -/
+example : (∃ k, idClass x2 = some k ∧ filterGlobals k = true) ∧ (∀ x ∈ contentEx, x.alias ≠ x2) :=
+  ⟨⟨.ID_GLOBAL, by decide +kernel, by decide⟩, by decide⟩
+
+/-- **capture on the content.** Without the proviso the dependency structure changes: `X1`, `X2`,
+`D1 := X1∪X9` (`X9` unresolved); renaming `X2` to the free alias `X9` makes `D1` mention constituent 2, which it
+did not mention before. All other hypotheses of `content_dependencies_preserved` hold. -/
+theorem content_capture_counterexample :
+    let cs : List Concept := [⟨1, x1, [], [], [], []⟩, ⟨2, x2, [], [], [], []⟩,
+      ⟨3, [68, 49], encode [88, 49, U, 88, 57], [], [], []⟩]
+    (∀ c ∈ cs, c.WF) ∧ (cs.map (·.uid)).Nodup ∧ (cs.map (·.alias)).Nodup ∧ (∀ x ∈ cs, x.alias ≠ [88, 57]) ∧
+    freshFor [(x2, [88, 57])] cs = false ∧
+    cs.map (fun x => (x.alias, extractUGlobals x.definition)) =
+      [(x1, some []), (x2, some []), ([68, 49], some [x1, [88, 57]])] ∧
+    (setAlias cs 2 [88, 57] true).map (·.map fun x => (x.alias, extractUGlobals x.definition)) =
+      some [(x1, some []), ([88, 57], some []), ([68, 49], some [x1, [88, 57]])] := by
+  decide +kernel
+
+end WordLevelContent
 
 end CCVerif.C08
